@@ -1684,6 +1684,11 @@ func c02ObserverCompaction(c *Ctx, g *gossipAnchors, rule string) {
 			if _, ok := loadedField(parse.Call.Args[0], g.eValue); !ok {
 				return
 			}
+			// versions are uint64 counters: a narrower parse fails on a long-lived owner and the purge is skipped
+			base, okB := constInt(parse.Call.Args[1])
+			bits, okW := constInt(parse.Call.Args[2])
+			c.check(okB && okW && base == 10 && bits == 64, rule, fnName(fn)+"/compaction-version-parsed-in-full", parse.Pos(), "strconv.ParseUint(value, 10, 64)",
+				"the compaction version is not parsed as a base-10 64-bit value: beyond the narrower range the parse fails and observers keep entries the owner has compacted away")
 			var cvv, perr ssa.Value
 			for _, r := range *parse.Referrers() {
 				if ex, ok := r.(*ssa.Extract); ok {
